@@ -33,15 +33,20 @@ const mapRule = "case = list of (key, value 0..3) entries, inserted in order int
 func RunMap(c MapCase) pbt.Outcome {
 	// model: pairs sorted by key, later entries win
 	var model []kv
-	for _, e := range c.Entries {
-		at := sort.Search(len(model), func(i int) bool { return model[i].k >= e[0] })
-		if at < len(model) && model[at].k == e[0] {
-			model[at].v = e[1]
-			continue
+	{
+		order := make([]int, len(c.Entries))
+		for i := range order {
+			order[i] = i
 		}
-		model = append(model, kv{})
-		copy(model[at+1:], model[at:])
-		model[at] = kv{e[0], e[1]}
+		sort.SliceStable(order, func(a, b int) bool { return c.Entries[order[a]][0] < c.Entries[order[b]][0] })
+		for _, i := range order {
+			e := c.Entries[i]
+			if n := len(model); n > 0 && model[n-1].k == e[0] {
+				model[n-1].v = e[1]
+				continue
+			}
+			model = append(model, kv{e[0], e[1]})
+		}
 	}
 	build := func() myMap {
 		if len(model) == 0 && c.Nil {
@@ -339,7 +344,7 @@ var specMaps = pbt.Register(&pbt.Spec[MapCase]{
 		}
 		return MapCase{Entries: es, Nil: rapid.Bool().Draw(t, "nil")}
 	},
-	Run: RunMap, Quick: 10000, Thorough: 60000,
+	Run: RunMap, Quick: 10000, Thorough: 60000, Replicas: 4, ReplicaEvery: 8,
 })
 
 func TestC14Maps(t *testing.T) { pbt.Check(t, specMaps) }
@@ -390,13 +395,13 @@ func bigMapCase(n, pattern int) MapCase {
 
 var specMapsBig = pbt.Register(&pbt.Spec[MapCase]{
 	Property: "C14", Name: "C14.maps.big",
-	Rule: "enumerated: n entries for n in {2^b-1, 2^b, 2^b+1, 6.5*2^(b-3) and its neighbours} for 2^b in 8..4096 (thorough: ..65536) x key pattern " +
+	Rule: "enumerated: n entries for n in {2^b-1, 2^b, 2^b+1, 6.5*2^(b-3) and its neighbours} for 2^b in 8..4096 (thorough: ..2^18; quick: additionally 2^14+1, 2^15-1, 2^16 and 6.5*2^13+1 entries with two key patterns each) x key pattern " +
 		"(consecutive, stride 64, MaxInt-i, MinInt+i, i<<32, pseudo-random with repeated keys, descending), values i%3 and a single entry holding 3; " +
 		"rapid: size class 10/40/150/600 (up to twice that), keys drawn from -r..r with r in {n, 4n, 2^40} optionally shifted to the top or bottom of the int range, values 0..3; " + mapRule,
 	Enum: func(shard, shards int, tier string, yield func(MapCase) bool) {
 		max := 4096
 		if tier == "thorough" {
-			max = 65536
+			max = 1 << 18
 		}
 		i := 0
 		for _, n := range mapSizes(max) {
@@ -410,6 +415,15 @@ var specMapsBig = pbt.Register(&pbt.Spec[MapCase]{
 				}
 			}
 		}
+		if tier != "thorough" { // the sizes 2^14, 2^15, 2^16 in the quick tier: one size of each group, two key patterns
+			for j, n := range []int{1<<14 + 1, 1<<15 - 1, 1 << 16, 1<<16*13/16 + 1} {
+				for _, pattern := range []int{j % 5, 5} {
+					if !yield(bigMapCase(n, pattern)) {
+						return
+					}
+				}
+			}
+		}
 	},
 	Gen: func(t *rapid.T) MapCase {
 		class := rapid.SampledFrom([]int{10, 40, 150, 600}).Draw(t, "sizeclass")
@@ -420,7 +434,7 @@ var specMapsBig = pbt.Register(&pbt.Spec[MapCase]{
 		}), class, 2*class).Draw(t, "entries")
 		return MapCase{Entries: es}
 	},
-	Run: RunMap, Quick: 300, Thorough: 2000,
+	Run: RunMap, Quick: 300, Thorough: 2000, Replicas: 4, ReplicaEvery: 8,
 })
 
 func TestC14MapsBig(t *testing.T) { pbt.Check(t, specMapsBig) }
